@@ -35,6 +35,7 @@ type Ctx struct {
 	nontrivial bool
 	sample     func() any
 	tags       []string
+	counts     map[string]int64
 	replayErr  string
 
 	limit    int // BFS: stop offering steps once this many choices were made (<0 = no limit)
@@ -140,6 +141,14 @@ func (c *Ctx) Nontrivial() { c.nontrivial = true }
 
 // Tag counts the execution under a named category (reported in evidence).
 func (c *Ctx) Tag(t string) { c.tags = append(c.tags, t) }
+
+// Count adds n to a named counter (reported with the tags in the evidence).
+func (c *Ctx) Count(name string, n int64) {
+	if c.counts == nil {
+		c.counts = map[string]int64{}
+	}
+	c.counts[name] += n
+}
 
 // Sample registers a function that renders the case in human-readable form;
 // it is only called for cases that are written out.
@@ -488,6 +497,9 @@ func (e *explorer) runOne(t task) []task {
 	}
 	for _, tg := range c.tags {
 		e.tags[tg]++
+	}
+	for k, n := range c.counts {
+		e.tags[k] += n
 	}
 	if !skipped && c.sample != nil {
 		// reservoir of NSamples, rotated by seed
